@@ -1,6 +1,6 @@
 SPECIFICATION Spec
 CONSTANTS
-  FieldKinds = {"s1","s2","s4","s8","hdr16","hdr24","a2x1","a3x1","a4x1","a2x2","a3x3","a2x4","a2x8","a3x5","a2x12","a2x16","a2x24","a1x64"}
+  FieldKinds = {"s1","s2","s4","s8","hdr16","hdr24","a2x1","a3x1","a4x1","a2x2","a3x3","a2x4","a2x8","a3x5","a2x12","a2x16","a2x24","a1x64","q1","q2","q4","q8","t1","t2","t4"}
   MaxFields = 2
   Deviations = {}
 INVARIANTS WritesInsideAddressed GuardsUntouched ArrayFullyDefined Export
